@@ -712,12 +712,22 @@ static int ZSTD_isUpdateAuthorized(ZSTD_cParameter param)
     }
 }
 
+/* ZSTD_CCtx_frameStarted() :
+ * tells if a frame is in progress, i.e. the context is no longer in the init stage.
+ * Input accepted in stable-input mode but whose compression is deferred (stableIn_notConsumed)
+ * belongs to a frame in progress too, even though streamStage has not left zcss_init yet. */
+static int ZSTD_CCtx_frameStarted(const ZSTD_CCtx* cctx)
+{
+    return (cctx->streamStage != zcss_init) || (cctx->stableIn_notConsumed != 0);
+}
+
 size_t ZSTD_CCtx_setParameter(ZSTD_CCtx* cctx, ZSTD_cParameter param, int value)
 {
     DEBUGLOG(4, "ZSTD_CCtx_setParameter (%i, %i)", (int)param, value);
-    if (cctx->streamStage != zcss_init) {
+    if (ZSTD_CCtx_frameStarted(cctx)) {
         if (ZSTD_isUpdateAuthorized(param)) {
-            cctx->cParamsChanged = 1;
+            /* deferred stable input: nothing applied yet, requestedParams are read at initialization */
+            if (cctx->streamStage != zcss_init) cctx->cParamsChanged = 1;
         } else {
             RETURN_ERROR(stage_wrong, "can only set params in cctx init stage");
     }   }
@@ -1177,7 +1187,7 @@ size_t ZSTD_CCtx_setParametersUsingCCtxParams(
         ZSTD_CCtx* cctx, const ZSTD_CCtx_params* params)
 {
     DEBUGLOG(4, "ZSTD_CCtx_setParametersUsingCCtxParams");
-    RETURN_ERROR_IF(cctx->streamStage != zcss_init, stage_wrong,
+    RETURN_ERROR_IF(ZSTD_CCtx_frameStarted(cctx), stage_wrong,
                     "The context is in the wrong stage!");
     RETURN_ERROR_IF(cctx->cdict, stage_wrong,
                     "Can't override parameters with cdict attached (some must "
@@ -1230,7 +1240,7 @@ size_t ZSTD_CCtx_setParams(ZSTD_CCtx* cctx, ZSTD_parameters params)
 size_t ZSTD_CCtx_setPledgedSrcSize(ZSTD_CCtx* cctx, unsigned long long pledgedSrcSize)
 {
     DEBUGLOG(4, "ZSTD_CCtx_setPledgedSrcSize to %llu bytes", pledgedSrcSize);
-    RETURN_ERROR_IF(cctx->streamStage != zcss_init, stage_wrong,
+    RETURN_ERROR_IF(ZSTD_CCtx_frameStarted(cctx), stage_wrong,
                     "Can't set pledgedSrcSize when not in init stage.");
     cctx->pledgedSrcSizePlusOne = pledgedSrcSize+1;
     return 0;
@@ -1287,7 +1297,7 @@ size_t ZSTD_CCtx_loadDictionary_advanced(
         ZSTD_dictContentType_e dictContentType)
 {
     DEBUGLOG(4, "ZSTD_CCtx_loadDictionary_advanced (size: %u)", (U32)dictSize);
-    RETURN_ERROR_IF(cctx->streamStage != zcss_init, stage_wrong,
+    RETURN_ERROR_IF(ZSTD_CCtx_frameStarted(cctx), stage_wrong,
                     "Can't load a dictionary when cctx is not in init stage.");
     ZSTD_clearAllDicts(cctx);  /* erase any previously set dictionary */
     if (dict == NULL || dictSize == 0)  /* no dictionary */
@@ -1327,7 +1337,7 @@ size_t ZSTD_CCtx_loadDictionary(ZSTD_CCtx* cctx, const void* dict, size_t dictSi
 
 size_t ZSTD_CCtx_refCDict(ZSTD_CCtx* cctx, const ZSTD_CDict* cdict)
 {
-    RETURN_ERROR_IF(cctx->streamStage != zcss_init, stage_wrong,
+    RETURN_ERROR_IF(ZSTD_CCtx_frameStarted(cctx), stage_wrong,
                     "Can't ref a dict when ctx not in init stage.");
     /* Free the existing local cdict (if any) to save memory. */
     ZSTD_clearAllDicts(cctx);
@@ -1337,7 +1347,7 @@ size_t ZSTD_CCtx_refCDict(ZSTD_CCtx* cctx, const ZSTD_CDict* cdict)
 
 size_t ZSTD_CCtx_refThreadPool(ZSTD_CCtx* cctx, ZSTD_threadPool* pool)
 {
-    RETURN_ERROR_IF(cctx->streamStage != zcss_init, stage_wrong,
+    RETURN_ERROR_IF(ZSTD_CCtx_frameStarted(cctx), stage_wrong,
                     "Can't ref a pool when ctx not in init stage.");
     cctx->pool = pool;
     return 0;
@@ -1351,7 +1361,7 @@ size_t ZSTD_CCtx_refPrefix(ZSTD_CCtx* cctx, const void* prefix, size_t prefixSiz
 size_t ZSTD_CCtx_refPrefix_advanced(
         ZSTD_CCtx* cctx, const void* prefix, size_t prefixSize, ZSTD_dictContentType_e dictContentType)
 {
-    RETURN_ERROR_IF(cctx->streamStage != zcss_init, stage_wrong,
+    RETURN_ERROR_IF(ZSTD_CCtx_frameStarted(cctx), stage_wrong,
                     "Can't ref a prefix when ctx not in init stage.");
     ZSTD_clearAllDicts(cctx);
     if (prefix != NULL && prefixSize > 0) {
@@ -1374,7 +1384,7 @@ size_t ZSTD_CCtx_reset(ZSTD_CCtx* cctx, ZSTD_ResetDirective reset)
     }
     if ( (reset == ZSTD_reset_parameters)
       || (reset == ZSTD_reset_session_and_parameters) ) {
-        RETURN_ERROR_IF(cctx->streamStage != zcss_init, stage_wrong,
+        RETURN_ERROR_IF(ZSTD_CCtx_frameStarted(cctx), stage_wrong,
                         "Reset parameters is only possible during init stage.");
         ZSTD_clearAllDicts(cctx);
         return ZSTD_CCtxParams_reset(&cctx->requestedParams);
